@@ -36,9 +36,9 @@ theorem probes_length (n limit cnt : Nat) : (probes n limit cnt).length = cnt :=
 /-- how `wrapper` turns the outcome of the (single) body run at `limit = j` into its own outcome -/
 def finish (n j : Nat) (r : BodyRes β × σ) (evs : List Ev) : WRes σ β :=
   match r.1 with
-  | .ret v => ⟨.ret v, ⟨true, j⟩, r.2, evs ++ [.run (n - j)]⟩
-  | .raise .indexError _ => ⟨.wrappedIndex, ⟨false, j⟩, r.2, evs ++ [.run (n - j)]⟩
-  | .raise e _ => ⟨.raise e, ⟨false, j⟩, r.2, evs ++ [.run (n - j)]⟩
+  | .ret v => ⟨.ret v, ⟨true, j⟩, r.2, evs ++ [.run (n - j)], []⟩
+  | .raise .indexError _ => ⟨.wrappedIndex, ⟨false, j⟩, r.2, evs ++ [.run (n - j)], []⟩
+  | .raise e fr => ⟨.raise e, ⟨false, j⟩, r.2, evs ++ [.run (n - j)], fr⟩
 
 /-- one unfolding of the loop when the arguments bind -/
 theorem probeLoop_accept (cfg : Cfg) (f : Callable σ β) (hpy : PyLevel cfg f)
@@ -65,7 +65,7 @@ theorem probeLoop_reject_last (cfg : Cfg) (f : Callable σ β)
     (n limit : Nat) (s : σ) (evs : List Ev) (hacc : f.accepts (n - limit) = false)
     (hge : cfg.maxLimit ≤ limit) :
     probeLoop cfg f n limit s evs =
-      ⟨.raise .typeError, ⟨false, limit⟩, s, evs ++ [.probe (n - limit)]⟩ := by
+      ⟨.raise .typeError, ⟨false, limit⟩, s, evs ++ [.probe (n - limit)], []⟩ := by
   rw [probeLoop]
   have : ¬ limit < cfg.maxLimit := by omega
   simp [callFn, hacc, this]
@@ -99,7 +99,7 @@ theorem probeLoop_spec_reject (cfg : Cfg) (f : Callable σ β) (hsyn : cfg.synth
     ∀ (d limit : Nat) (s : σ) (evs : List Ev), cfg.maxLimit = limit + d →
       (∀ i, limit ≤ i → i ≤ cfg.maxLimit → f.accepts (n - i) = false) →
       probeLoop cfg f n limit s evs =
-        ⟨.raise .typeError, ⟨false, cfg.maxLimit⟩, s, evs ++ probes n limit (d + 1)⟩ := by
+        ⟨.raise .typeError, ⟨false, cfg.maxLimit⟩, s, evs ++ probes n limit (d + 1), []⟩ := by
   intro d
   induction d with
   | zero =>
